@@ -53,10 +53,23 @@ def run_batch(job):
         fa = os.path.join(d, "r.fa")
         gaf = os.path.join(d, "a.gaf")
         lines = []
+        # read names are free text (some start with '#' or '@'); and a read may have SEVERAL alignments: every sixth record whose
+        # alignment starts with two matches is followed by a second record of the same read that starts one base further in
+        recs = [dict(r, id=(["", "", "#", "", "@"][k % 5] + r["id"])) for k, r in enumerate(recs)]
+        more = []
+        for k, r in enumerate(recs):
+            more.append(dict(r, _k=k, _skip=0))
+            if k % 6 == 2 and not r.get("long") and r["ops"][:2] == ["=", "="] and r["pe"] - r["ps"] > 2:
+                more.append(dict(r, _k=k, _skip=1, read=r["read"][1:], ops=r["ops"][1:], ps=r["ps"] + 1))
+        recs = more
         with open(fa, "w") as f:
-            for k, r in enumerate(recs):
+            for r in recs:
+                k = r["_k"]
                 left, right = "GT"[: k % 3], "CA"[: (k + 1) % 3]
-                f.write(f">{r['id']}\n{left}{r['read']}{right}\n")
+                if r["_skip"]:
+                    left = left + recs[recs.index(r) - 1]["read"][:1]      # the same read: its first aligned base now belongs to the flank
+                else:
+                    f.write(f">{r['id']}\n{left}{r['read']}{right}\n")
                 runs = fragment(rle(r["ops"]), r["frag"])
                 cg = "".join(f"{n}{o}" for n, o in runs)
                 plen = len(spell(seq, r["walk"]))
@@ -93,17 +106,17 @@ def run_batch(job):
         olines = {}
         if os.path.exists(out):
             for l in lines_of(read_out(out)):
-                olines.setdefault(l.split("\t")[0], l)
+                olines.setdefault(l.split("\t")[0], []).append(l)
         cases = []
         st = res["status"] if res["status"] == "ok" else res["status"] + ":" + res["exc"][:50]
         for r, il in zip(recs, lines):
             fi = il.split("\t")
-            ol = olines.get(r["id"])
+            ol = (olines.get(r["id"]) or [None]).pop(0) if olines.get(r["id"]) else None      # the k-th record of a read with the k-th output line of that read
             fo = ol.split("\t") if ol else []
             def cg_of(f):
                 x = [t for t in f[12:] if t.startswith("cg:Z:")]
                 return parse_cigar(x[0][5:]) if x else []
-            cases.append({"id": f"{bid}.{r['id']}", "status": st, "missing": ol is None, "seq": seq, "walk": r["walk"], "ps": r["ps"], "pe": r["pe"],
+            cases.append({"id": f"{bid}.{r['id']}" + ("+1" if r.get("_skip") else ""), "status": st, "missing": ol is None, "seq": seq, "walk": r["walk"], "ps": r["ps"], "pe": r["pe"],
                           "read": r["read"], "icg": cg_of(fi), "ocg": cg_of(fo), "icols": fi[:12], "ocols": fo[:12] if fo else [""] * 12,
                           "iopt": [t for t in fi[12:] if not t.startswith("cg:Z:")], "oopt": [t for t in fo[12:] if not t.startswith("cg:Z:")],
                           "long": r.get("long", False)})
